@@ -23,7 +23,7 @@ from vmc.strictparse import parse_all
 PROPERTY = "C16"
 LEVEL = "exploration"
 RULE = (
-    "cases = configuration (14) x server state (3) x operation with keyword arguments (~170) x stack (5 besides "
+    "cases = configuration (14) x server state (4) x operation with keyword arguments (~170) x stack (5 besides "
     "Client); each case is one call on a fresh stack over a fresh reference server; non-trivial = the baseline's "
     "outcome depends on the configuration or state (all do by construction); distinct = distinct (config, state, call)"
 )
@@ -72,7 +72,21 @@ def materialise(cfg, net):
         from pymemcache.client.base import KeepaliveOpts
         out["socket_keepalive"] = KeepaliveOpts(idle=7, intvl=3, cnt=4)
     return out
+class OneShot:
+    """Marker: the call gets a fresh one-shot iterator over these keys each time it is observed."""
+
+    def __init__(self, keys, kind):
+        self.keys, self.kind = list(keys), kind
+
+    def make(self):
+        return iter(self.keys) if self.kind == "iter" else (k for k in self.keys)
+
+    def __repr__(self):
+        return f"{self.kind}({self.keys!r})"
+
+
 STATES = {
+    "empty-value": b"set k 0 0 0\r\n\r\nset m 0 0 0\r\n\r\n",
     "miss": b"",
     "numeric": b"set k 0 0 1\r\n5\r\nset m 0 0 1\r\n6\r\n",
     "text": b"set k 7 0 1\r\nx\r\nset m 7 0 2\r\nyy\r\n",
@@ -130,6 +144,9 @@ def calls(cfgname):
     add("get_many", [key, K2])
     add("gets_many", [K2, key])
     add("get_many", [])
+    add("get_many", OneShot([key, K2], "iter"))
+    add("gets_many", OneShot([K2, key], "generator"))
+    add("delete_many", OneShot([key, K2], "iter"), noreply=False)
     add("get_many", [key, K2, key])
     add("gets_many", [key, key])
     add("delete_many", [key, key, K2], noreply=False)
@@ -182,6 +199,7 @@ def observe(stack, cfg, state, call, first=None):
         except Exception:
             pass
     net.call = 1
+    args = tuple(a.make() if isinstance(a, OneShot) else a for a in args)
     try:
         f = getattr(obj, name)
         res = ("ret", f(*args, **kw))
@@ -222,6 +240,10 @@ def _worker(job, chk):
                 continue
             bres, bcmds, bopts, btouts = base
             res, cmds, opts, touts = got
+            if stack == "retry2" and bres[0] == "exc" and any(isinstance(a, OneShot) for a in call[2]):
+                # a one-shot iterator cannot be handed to a second attempt: outside what a retry can promise
+                chk.count("retry_of_one_shot_iterator_not_judged")
+                continue
             want_cmds = bcmds
             if stack == "retry2" and bres[0] == "exc" and not (call[1] == "__getitem__" and bres[1] == "KeyError"):
                 # (for obj[k] the KeyError is raised by the wrapper after a successful get: nothing to retry)
@@ -265,7 +287,7 @@ def _worker(job, chk):
 def run(chk):
     chk.rule = RULE
     chk.assumptions = ["arguments are passed by keyword (positional order differs between the classes and is not part of the statement)",
-                       "a RetryingClient with 2 attempts repeats the command list of a raising call"]
+                       "a RetryingClient with 2 attempts repeats the command list of a raising call (not judged when the argument is a one-shot iterator, which the first attempt has consumed)"]
     runner.parallel(chk, _worker, [(c, s) for c in CONFIGS for s in STATES])
 
 
